@@ -6,7 +6,9 @@ PID = "C07"
 EXTRA_PROPS = ("Num",)
 RULE = ("case 'frame' = (format, generated matrix as in C06 but with factors/offsets of up to 12 significant digits incl. exponent "
         "forms, value tables, units (also longer than 16 characters for SYM), multiplexing with selector value 0, several senders and "
-        "receivers, float signals with either sign flag; one frame): the re-read frame is compared with the original on every feature "
+        "receivers, float signals with either sign flag; in three matrices out of ten signals about which there is nothing to say - factor 1, "
+        "offset 0, no unit, signed or unsigned, many of them 1 bit flags or with the explicit limits 0..1 / 0..0 - so that a writer omits what "
+        "equals the format's default and the reader's defaults decide (c06.plain_signals); one frame): the re-read frame is compared with the original on every feature "
         "the format's documented feature table lists (length, type, factor/offset as exact decimals, value tables, unit, multiplexer "
         "role and selector values, senders, receivers). case 'sig' = signedness / float type per signal through the type-word "
         "kernels. Non-trivial = distinct case whose frame has a non-integer factor, a value table or a multiplexer.")
